@@ -22,7 +22,7 @@ CODE = {PREOP: 127, OP: 5, STOP: 4}
 def make_cfg(rng):
     nid = rng.choice([1, 3, 127])
     freq = rng.choice([100, 1000, 1000, 10000, 1500, 2500, 32768])      # incl. clocks that are no multiple of 1 kHz
-    ms_choices = [m for m in (10, 20, 30, 50, 100, 250, 1000, 1, 5, 2, 4, 6, 125, 500) if (m * freq) % 1000 == 0 and m * freq // 1000 <= 4000]
+    ms_choices = [m for m in (10, 20, 30, 50, 100, 250, 1000, 1, 5, 2, 4, 6, 125, 500) if (m * freq) % 1000 == 0 and m * freq // 1000 <= 40000]
     hb0 = rng.choice([0] + ms_choices)
     cfg = Config(nodeid=nid, freq=freq, tmrnum=16)
     # optional objects (1005h/1006h, 1016h, 1014h) are missing in some dictionaries
@@ -146,6 +146,39 @@ def run_history(res, exe, rng, hidx):
         if err:
             fail("schedule/start", err); return
         nsteps = rng.choice([30, 60, 120])
+        if ms_choices and rng.random() < 0.12:
+            # scripted opening: timers of another service are stopped right before the heartbeat producer (re)starts, then that service
+            # becomes active again - a timer id that is handed from one owner to the next must not be used by the old owner
+            p_ms = rng.choice([m_ for m_ in ms_choices if m_ * freq // 1000 >= 2] or ms_choices)
+            k = rng.randrange(2)
+            for step in (("nmt", 1), ("hb", 0), ("ev", k, rng.choice([10, 40])), ("tick", 3), ("ev", k, 0), ("hb", p_ms),
+                         rng.choice([("trig", k), ("ev", k, 10), ("nmt2",), ("trig", k)]), ("tick", 3 * (p_ms * freq // 1000) + 2)):
+                t0 = sim.tick
+                if step[0] == "nmt":
+                    t0, evs = do("rx 0 2 01%02x" % nid); m.set_mode(OP, sim.tick); nmode += 1
+                elif step[0] == "nmt2":
+                    t0, evs = do("rx 0 2 80%02x" % nid); m.set_mode(PREOP, sim.tick)
+                    err = observe(t0, evs, False)
+                    if err:
+                        fail("schedule/scripted", err); return
+                    t0, evs = do("rx 0 2 01%02x" % nid); m.set_mode(OP, sim.tick)
+                elif step[0] == "hb":
+                    script.append("sdo write 1017 = %d" % step[1])
+                    code, evs = S.sdo_write(sim, nid, 0x1017, 0, step[1], 2)
+                    if code is not None:
+                        fail("write-refused", "SDO write of %d ms to 1017h refused: %r" % (step[1], code)); return
+                    m.on_write(step[1], sim.tick); nwrites += 1
+                elif step[0] == "ev":
+                    script.append("sdo write 180%d:5 = %d" % (step[1], step[2]))
+                    code, evs = S.sdo_write(sim, nid, 0x1800 + step[1], 5, step[2], 2)
+                elif step[0] == "trig":
+                    t0, evs = do("trigpdo %d" % step[1])
+                else:
+                    t0, evs = do("tick %d" % step[1])
+                err = observe(t0, evs, False)
+                if err:
+                    fail("schedule/scripted", err + " | script tail: " + "; ".join(script[-8:])); return
+            res.counters["scripted_timer_handover_openings"] += 1
         for i in range(nsteps):
             x = rng.random()
             boot = False
